@@ -26,7 +26,8 @@ are reported as VIOLATION (first 100: `seeded-logs/run-on-repo-2026-10-01.log`; 
 checks as they then stood: `seeded-logs/run-on-repo-2026-10-01b.log` — 201 reported on the first pass, 11 of them with
 `no-failing-input-found` on their first VIOLATION line; ONE early change, C05-dry-run-left-flip-order, was no longer reported:
 later generator changes had shifted the random stream away from the shape it needs — a family that produces that shape on
-purpose was added and the change is reported again, which is what re-running the whole collection is for).
+purpose was added and the change is reported again, which is what re-running the whole collection is for; waves 7 and 8:
+`seeded-logs/run-on-repo-2026-10-01c.log` (30/30) and `…-01d.log` (22/22)).
 
 Lessons that changed the generators: operands must include (i) more than 65,536 nodes (needs the fast engine), (ii) more
 than 256 / 1024 variables and level gaps of exactly 63/64/65, (iii) same-shaped sub-diagrams on variables congruent
@@ -78,7 +79,9 @@ of 16..40 variables, (xli) a trigger closure that itself runs a nested apply, (x
 dot export, (xliii) repeated literals in sorted `select` lists inside histories. A second first-run "miss" was again the
 machinery: a change that makes the library request 100 GB took the harness PROCESS down (CHECK-ERROR, no verdict); the
 transcript is now flushed after every case, a dead process is the outcome `ABORT` for the case it died in (a confirmed
-violation) and the shard resumes with the next program.
+violation) and the shard resumes with the next program; from the eighth wave (`*-w8-*`, 22 changes, 21 caught by the first
+run): (xliv) `ternary_op` over operands that store identical nodes at identical indices but denote different functions.
+First-run rates per wave: 80/100 (waves 1–2), 7/12, 19/30, 21/30, 26/30, 23/30, 21/22.
 
 | seeded change | property | needs | caught | by |
 |---|---|---|---|---|
